@@ -6,8 +6,10 @@
   (b) the body of an admitted session as a sequential machine over every outcome, with the ledger of registry calls.
   What is assumed: steps of different threads interleave at the granularity of critical sections (sequential
   consistency of lock-protected accesses); subscription ids are unique; every wait loop eventually receives one of
-  its events (timers fire). Not covered by proof: Go-memory-model data races (only `-race` runs), retry rounds of
-  `handleError` (depend on the repair of C11), third-party MPC code inside `Run`.
+  its events (timers fire). Not covered by proof: Go-memory-model data races (only `-race` runs); retry rounds of
+  `handleError` as driven by `Execute` (they depend on the repair of C11 — only their effect on a process object,
+  Run again / one Stop, is modelled: `rerun_releases_all`); third-party MPC code inside `Run`; a `Run` that never
+  returns (known finding C10-run-stuck-on-outchn).
 -/
 import SygmaModel.Model.C09
 namespace Sygma.C09
@@ -88,7 +90,7 @@ theorem inv_step (w : World) (t : Nat) (h : Inv w) : Inv (step w t) := by
       simp [hs, hs', this, List.mem_filter]
   · exact h
 
-theorem inv2_step (w : World) (t : Nat) (h1 : Inv w) (h : Inv2 w) : Inv2 (step w t) := by
+theorem inv2_step (w : World) (t : Nat) (h : Inv2 w) : Inv2 (step w t) := by
   unfold step
   split
   · next s ht =>
@@ -149,7 +151,7 @@ theorem inv_run (w : World) (sched : List Nat) (h : Inv w) (h2 : Inv2 w) :
     Inv (run w sched) ∧ Inv2 (run w sched) := by
   induction sched generalizing w with
   | nil => exact ⟨h, h2⟩
-  | cons t ts ih => exact ih (step w t) (inv_step w t h) (inv2_step w t h h2)
+  | cons t ts ih => exact ih (step w t) (inv_step w t h) (inv2_step w t h2)
 
 end Helpers
 
@@ -278,6 +280,45 @@ private theorem unsub_all (l : List (Sid × Nat)) (sid : Sid) (n a b : Nat) (h :
     simp [hi]
   rw [h1, h2, h3]; simp
 
+/-- state after some runs of one process object: the registry is the original one plus at most the current subscription -/
+private def RunInv (r : Reg) (sid : Sid) (st : Reg × Option Nat) : Prop :=
+  r.next ≤ st.1.next ∧ st.1.pending = r.pending ∧ st.1.streams = r.streams ∧
+  match st.2 with
+  | some i => st.1.live = r.live ++ [(sid, i)] ∧ r.next ≤ i ∧ i < st.1.next
+  | none => st.1.live = r.live
+
+private theorem drop_current (l : List (Sid × Nat)) (sid : Sid) (n i : Nat) (h : ∀ x ∈ l, x.2 < n) (hi : n ≤ i) :
+    (l ++ [(sid, i)]).filter (fun x => ![i].contains x.2) = l := by
+  rw [List.filter_append]
+  have h1 : l.filter (fun x => ![i].contains x.2) = l := by
+    apply List.filter_eq_self.2
+    intro x hx; have := h x hx
+    simp; omega
+  rw [h1]; simp
+
+private theorem runInv_step (r : Reg) (sid : Sid) (hf : r.Fresh) (st : Reg × Option Nat) (h : RunInv r sid st) :
+    RunInv r sid (runAgain sid st) := by
+  obtain ⟨r', cur⟩ := st
+  obtain ⟨hn, hp, hs, hc⟩ := h
+  cases cur with
+  | none =>
+    simp only at hc hn hp hs
+    simp only [RunInv, runAgain, Reg.subscribe, List.range'_one, List.map_cons, List.map_nil, List.head?_cons, hc]
+    refine ⟨by omega, hp, hs, trivial, hn, by omega⟩
+  | some i =>
+    simp only at hc hn hp hs
+    obtain ⟨hl, hi, hi'⟩ := hc
+    have := drop_current r.live sid r.next i hf hi
+    simp only [RunInv, runAgain, Reg.subscribe, Reg.unsubscribe, List.range'_one, List.map_cons, List.map_nil,
+      List.head?_cons, hl, this]
+    refine ⟨by omega, hp, hs, trivial, hn, by omega⟩
+
+private theorem runInv_iter (r : Reg) (sid : Sid) (hf : r.Fresh) (n : Nat) (st : Reg × Option Nat)
+    (h : RunInv r sid st) : RunInv r sid (iter (runAgain sid) n st) := by
+  induction n generalizing st with
+  | zero => exact h
+  | succ n ih => exact ih _ (runInv_step r sid hf st h)
+
 end HelpersB
 
 section PropertyB
@@ -297,7 +338,7 @@ theorem session_cleans_up (r : Reg) (s : Sess) (hf : r.Fresh) (hp : s.sid ∉ r.
     List.filter_eq_self.2 (fun x hx => by simp; intro e; exact hs (e ▸ hx))
   have hl := unsub_all r.live s.sid r.next (waitSubs s.role) (if s.out.ran then s.nproc else 0) hf
   simp only [execute, hp, if_false, Reg.subscribe, Reg.unsubscribe, hl, List.filter_cons, hpf, hsf]
-  simp only [ne_eq, not_true_eq_false, decide_false, Bool.false_eq_true, if_false, hpf, hsf]
+  simp only [ne_eq, not_true_eq_false, decide_false, Bool.false_eq_true, if_false]
   refine ⟨trivial, trivial, trivial, ?_, ?_⟩
   · intro x hx; have := hf x hx; simp only; omega
   · intro h0
@@ -342,45 +383,6 @@ example :
     let (r2, rep2) := execute r1 ⟨"a", .coord, 2, .ok⟩
     rep1.ret = .err ∧ rep1.sub = 3 ∧ rep1.runs = [0, 0] ∧ rep1.stops = [1, 1] ∧
     rep2.ret = .ok ∧ rep2.sub = 4 ∧ rep2.runs = [1, 1] ∧ r2.live = [("z", 7)] ∧ r2.next = 15 := by decide
-
-/-- state after some runs of one process object: the registry is the original one plus at most the current subscription -/
-private def RunInv (r : Reg) (sid : Sid) (st : Reg × Option Nat) : Prop :=
-  r.next ≤ st.1.next ∧ st.1.pending = r.pending ∧ st.1.streams = r.streams ∧
-  match st.2 with
-  | some i => st.1.live = r.live ++ [(sid, i)] ∧ r.next ≤ i ∧ i < st.1.next
-  | none => st.1.live = r.live
-
-private theorem drop_current (l : List (Sid × Nat)) (sid : Sid) (n i : Nat) (h : ∀ x ∈ l, x.2 < n) (hi : n ≤ i) :
-    (l ++ [(sid, i)]).filter (fun x => ![i].contains x.2) = l := by
-  rw [List.filter_append]
-  have h1 : l.filter (fun x => ![i].contains x.2) = l := by
-    apply List.filter_eq_self.2
-    intro x hx; have := h x hx
-    simp; omega
-  rw [h1]; simp
-
-private theorem runInv_step (r : Reg) (sid : Sid) (hf : r.Fresh) (st : Reg × Option Nat) (h : RunInv r sid st) :
-    RunInv r sid (runAgain sid st) := by
-  obtain ⟨r', cur⟩ := st
-  obtain ⟨hn, hp, hs, hc⟩ := h
-  cases cur with
-  | none =>
-    simp only at hc hn hp hs
-    simp only [RunInv, runAgain, Reg.subscribe, List.range'_one, List.map_cons, List.map_nil, List.head?_cons, hc]
-    refine ⟨by omega, hp, hs, trivial, hn, by omega⟩
-  | some i =>
-    simp only at hc hn hp hs
-    obtain ⟨hl, hi, hi'⟩ := hc
-    have := drop_current r.live sid r.next i hf hi
-    simp only [RunInv, runAgain, Reg.subscribe, Reg.unsubscribe, List.range'_one, List.map_cons, List.map_nil,
-      List.head?_cons, hl, this]
-    refine ⟨by omega, hp, hs, trivial, hn, by omega⟩
-
-private theorem runInv_iter (r : Reg) (sid : Sid) (hf : r.Fresh) (n : Nat) (st : Reg × Option Nat)
-    (h : RunInv r sid st) : RunInv r sid (iter (runAgain sid) n st) := by
-  induction n generalizing st with
-  | zero => exact h
-  | succ n ih => exact ih _ (runInv_step r sid hf st h)
 
 /-- **C09 (b), retried process.** A process object that is Run any number of times (the coordinator's retry rounds)
     and then stopped once leaves the subscription registry exactly as it found it. -/
